@@ -1398,6 +1398,11 @@ vbi_decode_caption(vbi_decoder *vbi, int line, uint8_t *buf)
 
 		ch = &cc->channel[(cc->curr_chan & 5) + field2 * 2];
 
+		/* 47 CFR 15.119 (i)(1): Only the control code immediately
+		   following is a repetition. */
+		if (!field2)
+			cc->last[0] = 0;
+
 		if (buf[0] == 0x80 && buf[1] == 0x80) {
 			if (ch->mode) {
 				if (ch->nul_ct == 2)
@@ -1407,9 +1412,6 @@ vbi_decode_caption(vbi_decoder *vbi, int line, uint8_t *buf)
 
 			break;
 		}
-
-		if (!field2)
-			cc->last[0] = 0;
 
 		ch->nul_ct = 0;
 
